@@ -186,6 +186,88 @@ def _rename_private_functions(root):
             fh.write(out)
 
 
+class _ReorderMethods(ast.NodeTransformer):
+    """benign twin: the methods of every class in reverse order (a class whose decorators or
+    class-level statements refer to its own methods is left alone)"""
+
+    def visit_ClassDef(self, node):
+        self.generic_visit(node)
+        defs = [b for b in node.body if isinstance(b, (ast.FunctionDef, ast.AsyncFunctionDef))]
+        names = {d.name for d in defs}
+        if len(names) != len(defs):
+            return node
+        for b in node.body:
+            holders = b.decorator_list if isinstance(b, (ast.FunctionDef, ast.AsyncFunctionDef)) \
+                else [b]
+            for h in holders:
+                if any(isinstance(n, ast.Name) and n.id in names for n in ast.walk(h)):
+                    return node
+        it = iter(reversed(defs))
+        node.body = [next(it) if isinstance(b, (ast.FunctionDef, ast.AsyncFunctionDef)) else b
+                     for b in node.body]
+        return node
+
+
+class _Annotate(ast.NodeTransformer):
+    """benign twin: annotations on every parameter and return, a docstring where missing"""
+
+    def visit_FunctionDef(self, node):
+        self.generic_visit(node)
+        for a in node.args.posonlyargs + node.args.args + node.args.kwonlyargs:
+            if a.arg not in ('self', 'cls') and a.annotation is None:
+                a.annotation = ast.Constant(value='object')
+        if node.returns is None and node.name != '__init__':
+            node.returns = ast.Constant(value='object')
+        if not (node.body and isinstance(node.body[0], ast.Expr) and
+                isinstance(node.body[0].value, ast.Constant) and
+                isinstance(node.body[0].value.value, str)):
+            node.body.insert(0, ast.Expr(value=ast.Constant(value='See the class documentation.')))
+        return node
+
+
+class _ReturnTemp(ast.NodeTransformer):
+    """benign twin: `return E` becomes `result_ = E; return result_` (not in generators, where
+    `return` carries the coroutine result all the same but the rules may key on it)"""
+
+    def visit_FunctionDef(self, node):
+        self.generic_visit(node)
+
+        def rec(stmts):
+            out = []
+            for st in stmts:
+                if isinstance(st, ast.Return) and st.value is not None and \
+                        not isinstance(st.value, (ast.Constant, ast.Name)):
+                    out.append(ast.Assign(targets=[ast.Name(id='result_', ctx=ast.Store())],
+                                          value=st.value))
+                    out.append(ast.Return(value=ast.Name(id='result_', ctx=ast.Load())))
+                    continue
+                if not isinstance(st, (ast.FunctionDef, ast.AsyncFunctionDef, ast.ClassDef)):
+                    for field in ('body', 'orelse', 'finalbody'):
+                        v = getattr(st, field, None)
+                        if isinstance(v, list) and v and isinstance(v[0], ast.stmt):
+                            setattr(st, field, rec(v))
+                    for h in getattr(st, 'handlers', []) or []:
+                        h.body = rec(h.body)
+                out.append(st)
+            return out
+        node.body = rec(node.body)
+        return node
+
+
+class _LoopGuards(ast.NodeTransformer):
+    """benign twin: `for ..: if c: BODY` becomes `for ..: if not c: continue` + BODY"""
+
+    def _loop(self, node):
+        self.generic_visit(node)
+        if len(node.body) == 1 and isinstance(node.body[0], ast.If) and not node.body[0].orelse:
+            i = node.body[0]
+            node.body = [ast.If(test=ast.UnaryOp(op=ast.Not(), operand=i.test),
+                                body=[ast.Continue()], orelse=[])] + i.body
+        return node
+
+    visit_For = visit_While = _loop
+
+
 def _global_twin(root, kind):
     if kind == 'rename-private-functions':
         return _rename_private_functions(root)
@@ -202,6 +284,14 @@ def _global_twin(root, kind):
                     t = _TryFinally().visit(t)
                 elif kind == 'guard-clauses':
                     t = _ElseAfterReturn().visit(_GuardClauses().visit(t))
+                elif kind == 'reorder-methods':
+                    t = _ReorderMethods().visit(t)
+                elif kind == 'annotate':
+                    t = _Annotate().visit(t)
+                elif kind == 'return-temp':
+                    t = _ReturnTemp().visit(t)
+                elif kind == 'loop-guards':
+                    t = _LoopGuards().visit(t)
                 ast.fix_missing_locations(t)
                 out = ast.unparse(t) + '\n'
                 compile(out, p, 'exec')
@@ -294,6 +384,8 @@ def run_for(prop, repo, only=None):
                  'expect': 'silent'})
     muts.append({'name': 'twin-global-rename-private-functions',
                  'global': 'rename-private-functions', 'expect': 'silent'})
+    for kind in ('reorder-methods', 'annotate', 'return-temp', 'loop-guards'):
+        muts.append({'name': 'twin-global-' + kind, 'global': kind, 'expect': 'silent'})
     if only:
         muts = [m for m in muts if m['name'] in only]
     results = []
